@@ -175,6 +175,11 @@ theorem spacelikeTo_isIso (hr : IsSqrt r) (v : Fin (n + 1) → K) (ker : List (F
   intro hker hnz hlen
   exact findIsometry_isIso' hr t rest ker ht hker hnz hlen
 
+/-- `TangentVector.isometry_to(other)` = `other.origin_to() @ self.origin_to().inv()`
+(tangent-vector transport): an isometry as soon as the two `origin_to` results are -/
+theorem isometryTo_isIso {A B : Matrix (Fin (n + 1)) (Fin (n + 1)) K} (hA : IsIso A) (hB : IsIso B) :
+    IsIso (compose B (tinv A)) := compose_isIso hB (isIso_inv hA)
+
 /-- `force_oriented=True` (`make_orientation_preserving`): still an isometry, now with `det > 0` -/
 theorem makeOriented_isIso {M : Matrix (Fin (n + 1)) (Fin (n + 1)) K} (h : IsIso M) :
     IsIso (makeOriented M) ∧ 0 < (makeOriented M).det := by
